@@ -269,6 +269,18 @@ def updatePlayerDisconnects (s : P2P) (now : Nat) : M P2P :=
       s.disconnectPlayerAtFrame now handle queueMin
     else pure s) s
 
+/-- The save inside the re-simulation loop: in sparse mode only the confirmed frame is saved, in
+normal mode every frame but the one just loaded. -/
+def resimSave (s : P2P) (minConfirmed : Frame) (i : Nat) (sync : SyncLayer) (reqs : List Request) :
+    M (SyncLayer × List Request) :=
+  if s.sparse then
+    if sync.currentFrame == minConfirmed then do
+      let (sync, r) ← sync.saveCurrentState; pure (sync, reqs ++ [r])
+    else pure (sync, reqs)
+  else if i > 0 then do
+    let (sync, r) ← sync.saveCurrentState; pure (sync, reqs ++ [r])
+  else pure (sync, reqs)
+
 /-- `adjust_gamestate`: load, reset predictions, resimulate up to the frame we came from. -/
 def adjustGamestate (s : P2P) (firstIncorrect minConfirmed : Frame) (reqs : List Request) :
     M (P2P × List Request) := do
@@ -284,45 +296,50 @@ def adjustGamestate (s : P2P) (firstIncorrect minConfirmed : Frame) (reqs : List
     | 0, _, sync, reqs => .ok (sync, reqs)
     | n + 1, i, sync, reqs => do
       let (sync, inputs) ← sync.synchronizedInputs s.pred s.localConnectStatus
-      let (sync, reqs) ←
-        if s.sparse then
-          if sync.currentFrame == minConfirmed then do
-            let (sync, r) ← sync.saveCurrentState; pure (sync, reqs ++ [r])
-          else pure (sync, reqs)
-        else if i > 0 then do
-          let (sync, r) ← sync.saveCurrentState; pure (sync, reqs ++ [r])
-        else pure (sync, reqs)
+      let (sync, reqs) ← s.resimSave minConfirmed i sync reqs
       let sync := sync.advanceFrame
       loop n (i + 1) sync (reqs ++ [.advance inputs])
   let (sync, reqs) ← loop count.toNat 0 sync reqs
   ensure (sync.currentFrame == current) "adjust_gamestate: did not return to the current frame"
   return ({ s with sync }, reqs)
 
+/-- Sparse saving, the state is too old: save now if the current frame is confirmed, otherwise roll
+back to the last saved state (the re-simulation saves the confirmed frame on its way). -/
+def saveOrRollbackToSaved (s : P2P) (lastSaved confirmed : Frame) (reqs : List Request) :
+    M (P2P × List Request) :=
+  if confirmed ≥ s.sync.currentFrame then do
+    let (sync, r) ← s.sync.saveCurrentState
+    pure ({ s with sync }, reqs ++ [r])
+  else s.adjustGamestate lastSaved confirmed reqs
+
 def checkLastSavedState (s : P2P) (lastSaved confirmed : Frame) (reqs : List Request) :
     M (P2P × List Request) := do
   if s.sync.currentFrame - lastSaved ≥ s.maxPrediction then
-    let (s, reqs) ←
-      if confirmed ≥ s.sync.currentFrame then do
-        let (sync, r) ← s.sync.saveCurrentState
-        pure ({ s with sync }, reqs ++ [r])
-      else s.adjustGamestate lastSaved confirmed reqs
+    let (s, reqs) ← s.saveOrRollbackToSaved lastSaved confirmed reqs
     ensure (confirmed == NULL_FRAME || s.sync.lastSavedFrame == min confirmed s.sync.currentFrame)
       "check_last_saved_state: confirmed state was not saved"
     return (s, reqs)
   else return (s, reqs)
 
-def handleRollbackAndSave (s : P2P) (confirmed : Frame) (reqs : List Request) : M (P2P × List Request) := do
+/-- First half of `handle_rollback_and_save`: roll back if any queue (or a pending disconnect)
+names an incorrect frame. -/
+def rollbackIfNeeded (s : P2P) (confirmed : Frame) (reqs : List Request) : M (P2P × List Request) :=
   let firstIncorrect := s.sync.checkSimulationConsistency s.disconnectFrame
-  let (s, reqs) ←
-    if firstIncorrect != NULL_FRAME then do
-      let (s, reqs) ← s.adjustGamestate firstIncorrect confirmed reqs
-      pure ({ s with disconnectFrame := NULL_FRAME }, reqs)
-    else pure (s, reqs)
-  let lastSaved := s.sync.lastSavedFrame
-  if s.sparse then s.checkLastSavedState lastSaved confirmed reqs
+  if firstIncorrect != NULL_FRAME then do
+    let (s, reqs) ← s.adjustGamestate firstIncorrect confirmed reqs
+    pure ({ s with disconnectFrame := NULL_FRAME }, reqs)
+  else pure (s, reqs)
+
+/-- Second half: save the current frame (every call, or in sparse mode only when needed). -/
+def saveAfterRollback (s : P2P) (confirmed : Frame) (reqs : List Request) : M (P2P × List Request) :=
+  if s.sparse then s.checkLastSavedState s.sync.lastSavedFrame confirmed reqs
   else do
     let (sync, r) ← s.sync.saveCurrentState
     return ({ s with sync }, reqs ++ [r])
+
+def handleRollbackAndSave (s : P2P) (confirmed : Frame) (reqs : List Request) : M (P2P × List Request) := do
+  let (s, reqs) ← s.rollbackIfNeeded confirmed reqs
+  s.saveAfterRollback confirmed reqs
 
 /-- How many frames the session is ahead of its last confirmed frame (`NULL_FRAME` counts as "no
 frame confirmed yet": the distance is then the current frame itself). -/
